@@ -338,6 +338,9 @@ func c19Schema(p *prng.R) *tspace.Schema {
 }
 
 // corruptOps produces a corrupted, still decodable operation list.
+// c19MatrixN walks the mutator x argument matrix (per process: a child is single-threaded here).
+var c19MatrixN int
+
 func corruptOps(p *prng.R, m *dyn.Model, g *gen.G, db *ref.DB) ([]ovsdb.Operation, []byte) {
 	ops := g.Txn(db)
 	wire, err := m.WireOps(ops)
@@ -374,9 +377,12 @@ func corruptOps(p *prng.R, m *dyn.Model, g *gen.G, db *ref.DB) ([]ovsdb.Operatio
 			// pseudo columns and columns the schema does not have, in every position
 			cn = []string{"_uuid", "_version", "no_such_column", ""}[p.Intn(4)]
 		}
-		arg := args[p.Intn(len(args))]
-		matrix = append(matrix, `{"op":"mutate","table":"`+t.Name+`","where":[],"mutations":[["`+cn+`","`+muts[p.Intn(len(muts))]+`",`+arg+`]]}`)
-		matrix = append(matrix, `{"op":"select","table":"`+t.Name+`","where":[["`+cn+`","`+fns[p.Intn(len(fns))]+`",`+arg+`]]}`)
+		// (mutator, argument) and (function, argument) pairs are walked through in order, so
+		// that a child meets every pair several times, each time on another column
+		c19MatrixN++
+		arg := args[(c19MatrixN/len(muts))%len(args)]
+		matrix = append(matrix, `{"op":"mutate","table":"`+t.Name+`","where":[],"mutations":[["`+cn+`","`+muts[c19MatrixN%len(muts)]+`",`+arg+`]]}`)
+		matrix = append(matrix, `{"op":"select","table":"`+t.Name+`","where":[["`+cn+`","`+fns[c19MatrixN%len(fns)]+`",`+args[(c19MatrixN/len(fns))%len(args)]+`]]}`)
 		switch p.Intn(6) {
 		case 0:
 			matrix = append(matrix, `{"op":"delete","table":"`+t.Name+`","where":[["`+cn+`","`+fns[p.Intn(len(fns))]+`",`+arg+`]]}`)
